@@ -213,7 +213,7 @@ func vsigThread(sigOp byte) *vsigEnv {
 	script = append(script, sigOp)
 	sigAt := len(ops) - 1
 	// one more instruction after the signature opcode (still part of the script code)
-	if vnondetBool("trailing") {
+	if vparam("TRAIL", 1) == 1 && vnondetBool("trailing") {
 		k := vnondetLen("trailing-slot", 0, 2)
 		ops = append(ops, vslotBytes(k))
 		script = append(script, vslotBytes(k)...)
@@ -422,4 +422,78 @@ func vsmall(n int) []byte {
 		return []byte{}
 	}
 	return []byte{byte(n)}
+}
+
+// refIsDER: BIP66 strict DER check of a signature including its trailing hash-type byte.
+func refIsDER(sig []byte) bool {
+	n := len(sig)
+	if n < 9 || n > 73 {
+		return false
+	}
+	if sig[0] != 0x30 || int(sig[1]) != n-3 {
+		return false
+	}
+	lenR := int(sig[3])
+	if 5+lenR >= n {
+		return false
+	}
+	lenS := int(sig[5+lenR])
+	if lenR+lenS+7 != n {
+		return false
+	}
+	if sig[2] != 0x02 || lenR == 0 || sig[4]&0x80 != 0 {
+		return false
+	}
+	if lenR > 1 && sig[4] == 0 && sig[5]&0x80 == 0 {
+		return false
+	}
+	if sig[lenR+4] != 0x02 || lenS == 0 || sig[lenR+6]&0x80 != 0 {
+		return false
+	}
+	if lenS > 1 && sig[lenR+6] == 0 && sig[lenR+7]&0x80 == 0 {
+		return false
+	}
+	return true
+}
+
+// C06-C: arbitrary (forged / malformed) signature bytes and hash types: the encoding flags turn
+// exactly the malformed cases into hard failures; everything else yields false (or a hard failure
+// under NULLFAIL), never true and never a fault.
+func VH_C06_Encoding() {
+	e := vsigThread(bscript.OpCHECKSIG)
+	th := e.th
+	_, pub := vkey("key")
+	if vnondetBool("odd-key-prefix") {
+		pub = append([]byte{vnondetU8("key-prefix")}, pub[1:]...)
+	}
+	// includes the trailing hash-type byte when non-empty; 9 bytes is the shortest well-formed DER signature
+	sl := []int{0, 1, 9, 10, 8, 11, 12}[vnondetLen("siglen", 0, vparam("SLN", 3))]
+	sig := vnondetBytes("sig", sl, sl)
+	th.dstack.stk = [][]byte{sig, pub}
+	err := th.executeOpcode(th.scripts[1][th.scriptOff])
+	fl := th.flags
+	strict := fl&scriptflag.VerifyStrictEncoding != 0
+	derFlags := fl&(scriptflag.VerifyDERSignatures|scriptflag.VerifyLowS|scriptflag.VerifyStrictEncoding) != 0
+	switch {
+	case len(sig) == 0:
+		vassert(err == nil && len(th.dstack.stk) == 1 && !asBool(th.dstack.stk[0]), "C06: empty signature is false, not an error")
+		vreach("c06-enc-empty")
+		return
+	}
+	ht := sig[len(sig)-1]
+	base := ht &^ 0xc0
+	badType := strict && (base < 1 || base > 3 || (ht&0x40 != 0) != e.forkid)
+	badKey := strict && !(len(pub) == 33 && (pub[0] == 2 || pub[0] == 3))
+	if (derFlags && !refIsDER(sig)) || badType || badKey {
+		vassert(err != nil, "C06: malformed signature / hash type / key encoding is a hard failure under the encoding flags")
+		vreach("c06-enc-hard")
+		return
+	}
+	// a forged signature never verifies
+	if fl&scriptflag.VerifyNullFail != 0 {
+		vassert(err != nil, "C06: forged non-empty signature is a hard failure under NULLFAIL")
+	} else {
+		vassert(err == nil && len(th.dstack.stk) == 1 && !asBool(th.dstack.stk[0]), "C06: forged signature yields false")
+	}
+	vreach("c06-enc-soft")
 }
